@@ -137,7 +137,7 @@ Allowed(d) == CASE d.kind = "login"    -> Req_LoginAllowed(d.email, d.groups, d.
 \* what the harness must observe
 Req_Obs(d) ==
     CASE d.kind = "login" ->
-           IF Allowed(d) THEN [session |-> "set"] ELSE [session |-> [not |-> "set"], status |-> [oneof |-> <<403, 401, 500>>]]
+           IF Allowed(d) THEN [session |-> "set"] ELSE [session |-> [not |-> "set"]]        \* (how the refusal is presented is not the property's business)
       [] d.kind = "authonly" ->
            IF ~Allowed(d) THEN [served |-> FALSE, status |-> [oneof |-> <<401, 403>>], session |-> "cleared"]
            ELSE IF Req_Query(d.email, d.groups, d.query) THEN [served |-> TRUE, status |-> 202]
